@@ -429,6 +429,7 @@ class CooperativeTask:
         self._cooperator = cooperator
         self._deferreds: List[Deferred[Iterator[_TaskResultT]]] = []
         self._pauseCount = 0
+        self._waitingOnDeferred = False
         self._completionState: Optional[SchedulerError] = None
         self._completionResult: Optional[Union[Iterator[_TaskResultT], Failure]] = None
         cooperator._addTask(self)
@@ -473,7 +474,9 @@ class CooperativeTask:
 
         @raise NotPaused: if this L{CooperativeTask} is not paused.
         """
-        if self._pauseCount == 0:
+        if self._pauseCount == int(self._waitingOnDeferred):
+            # Only the pause taken while waiting on a yielded Deferred is left:
+            # nobody called pause(), so there is nothing to resume.
             raise NotPaused()
         self._pauseCount -= 1
         if self._pauseCount == 0 and self._completionState is None:
@@ -541,12 +544,18 @@ class CooperativeTask:
         else:
             if isinstance(result, Deferred) and self._completionState is None:
                 self.pause()
+                self._waitingOnDeferred = True
+
+                def resumeLater(result: object) -> None:
+                    self._waitingOnDeferred = False
+                    self.resume()
 
                 def failLater(failure: Failure) -> None:
+                    self._waitingOnDeferred = False
                     if self._completionState is None:
                         self._completeWith(TaskFailed(), failure)
 
-                result.addCallbacks(lambda result: self.resume(), failLater)
+                result.addCallbacks(resumeLater, failLater)
 
 
 class Cooperator:
